@@ -88,6 +88,7 @@ func runC06(c *Ctx, r *Report) {
 		"R-C06.6":  "Verify is total for every codec: the entry handed to ToHashable is assigned on every path",
 		"R-C06.7":  "difference admits an entry only on the equal-log-id edge",
 		"R-C06.10": "a log reopened through any loader keeps the access controller it was configured with",
+		"R-C06.12": "validation examines every error result before the next step overwrites it",
 		"R-C06.11": "the entry objects a merge installs as heads are the log's own validated objects, never the objects handed in by the other log",
 		"control":  "engine positive/negative controls analysed on every run",
 	} {
@@ -96,6 +97,9 @@ func runC06(c *Ctx, r *Report) {
 	nilControls(c, r, "control")
 	optionForwarding(c, r, "R-C06.10", constructorLogSpecs(), "AccessController")
 	mergedHeadObjects(c, r, "R-C06.11")
+	errDiscipline(c, r, "R-C06.12", func(fn *Fn) bool {
+		return rootNamed(fn, "Verify", "Join", "Append", "CanAppend", "VerifyIdentity")
+	}, "validation goes on as if the failed step had succeeded: an entry whose key, signature or identity could not be checked is treated as checked", deliberateDiscards)
 	join := p.FuncI("", "IPFSLog", "Join")
 	app := p.FuncI("", "IPFSLog", "Append")
 	all := map[*types.Var]bool{}
@@ -176,42 +180,7 @@ func runC06(c *Ctx, r *Report) {
 	c063(c, r, join, errVars)
 
 	// ---- R-C06.4 in Append
-	createErr, canErr := map[types.Object]bool{}, map[types.Object]bool{}
-	walkNoLit(app.Body, func(n ast.Node) bool {
-		as, ok := n.(*ast.AssignStmt)
-		if !ok || len(as.Rhs) != 1 {
-			return true
-		}
-		if call, ok := ast.Unparen(as.Rhs[0]).(*ast.CallExpr); ok {
-			cf := p.Callee(app, call)
-			if id, ok := as.Lhs[len(as.Lhs)-1].(*ast.Ident); ok && cf != nil {
-				switch cf.Name() {
-				case "CreateEntryWithIO", "CreateEntry":
-					createErr[p.ObjOf(app, id)] = true
-				case "CanAppend":
-					canErr[p.ObjOf(app, id)] = true
-				}
-			}
-		}
-		return true
-	})
-	r.Floor("R-C06.4", "creation/authorisation error variables in Append", len(createErr)+len(canErr), 2)
-	af := &Flow{P: p, Fn: app, Entry: Facts{}}
-	af.Edge = func(cond ast.Expr, taken bool, f Facts) {
-		for _, a := range splitCond(cond, taken) {
-			if x, isNil, ok := nilTest(a); ok && isNil {
-				if id, ok := ast.Unparen(x).(*ast.Ident); ok {
-					if createErr[p.ObjOf(app, id)] {
-						f["created"] = true
-					}
-					if canErr[p.ObjOf(app, id)] {
-						f["allowed"] = true
-					}
-				}
-			}
-		}
-	}
-	af.Run()
+	af, _ := appendAdmissionFlow(c)
 	appendDeniedStoresNothing(c, r, "R-C06.4", af, entriesHeads)
 	// no error return after the first such change in Append
 	am := &Flow{P: p, Fn: app, May: true, Entry: Facts{}}
@@ -1179,38 +1148,25 @@ func appendDeniedStoresNothing(c *Ctx, r *Report, rule string, af *Flow, fields 
 func appendAdmissionFlow(c *Ctx) (*Flow, map[*types.Var]bool) {
 	p := c.P
 	app := p.FuncI("", "IPFSLog", "Append")
-	createErr, canErr := map[types.Object]bool{}, map[types.Object]bool{}
-	walkNoLit(app.Body, func(n ast.Node) bool {
-		as, ok := n.(*ast.AssignStmt)
-		if !ok || len(as.Rhs) != 1 {
-			return true
-		}
-		if call, ok := ast.Unparen(as.Rhs[0]).(*ast.CallExpr); ok {
-			cf := p.Callee(app, call)
-			if id, ok := as.Lhs[len(as.Lhs)-1].(*ast.Ident); ok && cf != nil {
-				switch cf.Name() {
-				case "CreateEntryWithIO", "CreateEntry":
-					createErr[p.ObjOf(app, id)] = true
-				case "CanAppend":
-					canErr[p.ObjOf(app, id)] = true
-				}
+	g := &resultGate{p: p, fn: app, producer: func(call *ast.CallExpr) string {
+		if cf := p.Callee(app, call); cf != nil {
+			switch cf.Name() {
+			case "CreateEntryWithIO", "CreateEntry":
+				return "created"
+			case "CanAppend":
+				return "allowed"
 			}
 		}
-		return true
-	})
-	af := &Flow{P: p, Fn: app, Entry: Facts{}}
+		return ""
+	}}
+	af := &Flow{P: p, Fn: app, Entry: Facts{}, Node: g.Node}
 	af.Edge = func(cond ast.Expr, taken bool, f Facts) {
-		for _, a := range splitCond(cond, taken) {
-			if x, isNil, ok := nilTest(a); ok && isNil {
-				if id, ok := ast.Unparen(x).(*ast.Ident); ok {
-					if createErr[p.ObjOf(app, id)] {
-						f["created"] = true
-					}
-					if canErr[p.ObjOf(app, id)] {
-						f["allowed"] = true
-					}
-				}
-			}
+		g.Edge(cond, taken, f)
+		if f["ok|created"] {
+			f["created"] = true
+		}
+		if f["ok|allowed"] {
+			f["allowed"] = true
 		}
 	}
 	af.Run()
